@@ -46,12 +46,22 @@ pub mod progress {
     pub fn create_bar(opts: &Opts, size: u64) -> (r: Result<Box<dyn ProgressBar>>) { unimplemented!() }
 }
 impl ChannelUpdater {
+    /// identity of the updater's own channel
+    pub uninterp spec fn chan(&self) -> int;
     #[verifier::external_body]
-    pub fn new(config: &Arc<Config>) -> (r: ChannelUpdater) { unimplemented!() }
+    pub fn new(config: &Arc<Config>) -> (r: ChannelUpdater) ensures r.chan() >= 0 { unimplemented!() }
     #[verifier::external_body]
-    pub fn rx_channel(&self) -> (r: cbc::Receiver<StatusUpdate>) { unimplemented!() }
+    pub fn rx_channel(&self) -> (r: cbc::Receiver<StatusUpdate>) ensures r.chan() == self.chan() { unimplemented!() }
 }
 impl StatusUpdater for ChannelUpdater {
+    open spec fn sink(&self) -> int { self.chan() }
+    #[verifier::external_body]
+    fn send(&self, update: StatusUpdate, Tracked(w): Tracked<&mut World>) -> (r: Result<()>) { unimplemented!() }
+}
+/// libxcp::feedback::NoopUpdater: accepts every update and delivers it nowhere
+pub struct NoopUpdater;
+impl StatusUpdater for NoopUpdater {
+    open spec fn sink(&self) -> int { -1 }
     #[verifier::external_body]
     fn send(&self, update: StatusUpdate, Tracked(w): Tracked<&mut World>) -> (r: Result<()>) { unimplemented!() }
 }
